@@ -1,6 +1,7 @@
 package main
 
 import (
+	"bytes"
 	"fmt"
 	"os"
 	"path/filepath"
@@ -11,6 +12,7 @@ import (
 
 	soy "github.com/robfig/soy"
 	"github.com/robfig/soy/data"
+	"github.com/robfig/soy/soyjs"
 )
 
 // C13glob: "the same source files and globals" includes globals handed over in several maps (one per globals file, say).
@@ -156,6 +158,28 @@ func directC13files(g *G, rep *Report) {
 			}
 			return bb
 		})
+		// Generator.WriteFile(name) = Write(the file of that name, default options); an unknown name is ErrNotFound
+		if reg, err := compileBundle(fs); err == nil {
+			gen := soyjs.NewGenerator(reg)
+			seenName := map[string]bool{}
+			for _, sf := range reg.SoyFiles {
+				if seenName[sf.Name] {
+					continue
+				}
+				seenName[sf.Name] = true
+				var a, b bytes.Buffer
+				ea := gen.WriteFile(&a, sf.Name)
+				eb := soyjs.Write(&b, sf, soyjs.Options{})
+				if errText(ea) != errText(eb) || a.String() != b.String() {
+					rep.Violations = append(rep.Violations, Viol{Key: "c13files:generator", What: "Generator.WriteFile(" + sf.Name + ") differs from soyjs.Write of that file",
+						Req: req("c13files", encSources(fs)), Note: sf.Name, Impl: errText(ea) + " " + firstDiffLine(a.String(), b.String()), Want: "identical"})
+				}
+			}
+			var c bytes.Buffer
+			if e := gen.WriteFile(&c, "no-such-file.soy"); e != soyjs.ErrNotFound || c.Len() != 0 {
+				rep.Violations = append(rep.Violations, Viol{Key: "c13files:generator-notfound", What: "Generator.WriteFile of an unknown file name does not answer ErrNotFound", Req: req("c13files", encSources(fs)), Impl: errText(e), Want: "ErrNotFound"})
+			}
+		}
 		rep.Evaluations++
 		if strings.HasPrefix(viaStrings, "ERR") {
 			rep.Distribution["files:rejected"]++
